@@ -92,11 +92,36 @@ def _strip_code(text, tree):
     return out
 
 
+def _norm_label(s):
+    return _WS.sub(" ", s).strip().casefold()
+
+
+_BRACKETS = re.compile(r"(?<![\\\]])\[((?:[^\[\]\\]|\\.)+)\](\[((?:[^\[\]\\]|\\.)*)\]|\(|:)?")
+
+
+def scan_refs(text, labels):
+    """Reference labels USED by links and images, in document order: `[t][label]`, `[label][]`, and `[label]` when that label
+    is defined.  A hand scanner over the raw text without code (Marko's tree does not keep how a link was written)."""
+    out = []
+    for m in _BRACKETS.finditer(text):
+        inner, tail, lab = m.group(1), m.group(2), m.group(3)
+        if inner.startswith("^"):
+            continue  # footnote reference
+        if tail is None:
+            if _norm_label(inner) in labels:
+                out.append(_norm_label(inner))
+        elif tail.startswith("["):
+            out.append(_norm_label(lab) if lab.strip() else _norm_label(inner))
+    return out
+
+
 def spans(text):
     tree = readers.norm_a(text)
     out = {"codeblock": [], "codespan": [], "html": [], "autolink": [], "link": [], "image": [], "def": [], "fnref": [], "fndef": []}
     _walk(tree, out)
-    out["tag"] = scan_tags(_strip_code(text, tree))
+    nocode = _strip_code(text, tree)
+    out["tag"] = scan_tags(nocode)
+    out["ref"] = scan_refs(_strip_prefixes("\n" + nocode), {_norm_label(d[0]) for d in out["def"]})
     return {k: tuple(v) for k, v in out.items()}
 
 
